@@ -18,13 +18,15 @@ Writtens == {<<>>, <<W("arch", "amd64", FALSE)>>, <<W("star", "", FALSE)>>, <<W(
              <<W("arch", "x86", TRUE), W("star", "", FALSE)>>, <<W("arch", "amd64-linux", FALSE)>>, <<W("arch", Bogus, FALSE)>>,
              <<W("caret", "", FALSE), W("arch", "arm64", FALSE)>>}
 Ln(op, n, v, s, w) == [op |-> op, name |-> n, ver |-> v, slot |-> s, written |-> w]
-SpecsOf == {<<"=", "c/a", 2, "">>, <<"", "c/a", 0, "">>, <<"=", "c/a", 2, "0">>, <<"=", "c/a", 3, "">>}
-           \cup (IF Rich THEN {<<"=", "c/a", 1, "">>, <<">=", "c/a", 2, "">>, <<"=", "c/b", 1, "">>} ELSE {})
+SpecsOf == {<<"=", "c/a", 1, "">>, <<"=", "c/a", 2, "">>, <<"", "c/a", 0, "">>, <<"=", "c/a", 2, "0">>, <<"=", "c/a", 3, "">>}
+           \cup (IF Rich THEN {<<">=", "c/a", 2, "">>, <<"=", "c/b", 1, "">>} ELSE {})
 LinesU == {Ln(s[1], s[2], s[3], s[4], w) : s \in SpecsOf, w \in Writtens}
-SecondU == {Ln(s[1], s[2], s[3], s[4], w) : s \in {<<"=", "c/a", 2, "">>, <<"", "c/a", 0, "">>},
-              w \in {<<W("caret", "", FALSE)>>} \cup (IF Rich THEN {<<W("star", "", FALSE)>>, <<>>, <<W("caret", "", FALSE), W("arch", "arm64", FALSE)>>} ELSE {})}
+\* second lines: the OTHER version of the package named above (its keywords differ), asking for  ^ ,  *  or nothing
+SecondU == {Ln(s[1], s[2], s[3], s[4], w) : s \in {<<"=", "c/a", 1, "">>, <<"=", "c/a", 2, "">>} \cup (IF Rich THEN {<<"", "c/a", 0, "">>} ELSE {}),
+              w \in {<<W("caret", "", FALSE)>>, <<W("star", "", FALSE)>>, <<>>}
+                     \cup (IF Rich THEN {<<W("caret", "", FALSE), W("arch", "arm64", FALSE)>>} ELSE {})}
 \* two-line requests: the first line is one that can yield (so the second can refer to it)
-FirstU == {a \in LinesU : a.name = "c/a" /\ a.ver # 3}
+FirstU == {a \in LinesU : a.name = "c/a" /\ a.ver # 3 /\ a.slot = ""}
 Requests == {<<a>> : a \in LinesU} \cup {<<a, b>> : a \in FirstU, b \in SecondU}
 OptsAll == {[stable |-> st, cc |-> cc, only_new |-> on, filter |-> fl, allarches |-> al] :
             st \in BOOLEAN, cc \in {<<>>, <<"x86", "amd64">>} \cup (IF Rich THEN {<<"amd64">>} ELSE {}), on \in BOOLEAN,
